@@ -56,7 +56,7 @@ def to_py(t, names, mod):
     if k == 'var':
         return names[t[1]]
     if k == 'cst':
-        return repr(float(fr(t[1])))
+        return '(%r)' % float(fr(t[1]))
     if k == 'neg':
         return '(-%s)' % to_py(t[1], names, mod)
     if k in BIN:
